@@ -53,12 +53,15 @@ func c06Chains(r *ev.Reporter) {
 		rec = func(k int) {
 			if k == L {
 				for _, jump := range []bool{false, true} {
-					cnt++
-					if msg := c06RunChain(batches, idx, jump); msg != "" {
-						if strings.HasPrefix(msg, "harness:") {
-							ev.Broken("C06 chain part: %s", msg)
+					// hole: one block of the chain never reaches the replica and cannot be fetched (-1: none)
+					for hole := -1; hole < L-1; hole++ {
+						cnt++
+						if msg := c06RunChain(batches, idx, jump, hole); msg != "" {
+							if strings.HasPrefix(msg, "harness:") {
+								ev.Broken("C06 chain part: %s", msg)
+							}
+							r.Violation("C06 chain: "+classify(msg), fmt.Sprintf("chain batches %v (indexes into %d batches over commands 1.1, 1.2, 2.1), commit-in-one-jump=%v, block withheld and not fetchable: %d: %s", idx, nb, jump, hole, msg), map[string]any{"batches": append([]int(nil), idx...), "jump": jump, "hole": hole})
 						}
-						r.Violation("C06 chain: "+classify(msg), fmt.Sprintf("chain batches %v (indexes into %d batches over commands 1.1, 1.2, 2.1), commit-in-one-jump=%v: %s", idx, nb, jump, msg), map[string]any{"batches": append([]int(nil), idx...), "jump": jump})
 					}
 				}
 				return
@@ -71,10 +74,10 @@ func c06Chains(r *ev.Reporter) {
 		rec(1)
 		r.Count(cnt, cnt*int64(L), cnt, cnt)
 	})
-	r.Extra["chain_part"] = fmt.Sprintf("all %d chains of %d blocks over %d batches x {block-by-block, one jump}", total, L, nb)
+	r.Extra["chain_part"] = fmt.Sprintf("all %d chains of %d blocks over %d batches x {block-by-block, one jump} x {no block withheld, each of the first %d blocks withheld and not fetchable}", total, L, nb, L-1)
 }
 
-func c06RunChain(batches [][]*clientpb.Command, idx []int, jump bool) string {
+func c06RunChain(batches [][]*clientpb.Command, idx []int, jump bool, hole int) string {
 	lg := &fix.NopLogger{}
 	el := eventloop.New(lg, 1000)
 	snd := &fix.Sender{ID: 1}
@@ -197,14 +200,35 @@ func c06RunChain(batches [][]*clientpb.Command, idx []int, jump bool) string {
 		if !jump || i == len(blocks)-1 {
 			ruler.target = b
 		}
+		if i == hole {
+			continue // this block never arrives, and no peer serves it
+		}
 		awaitBefore = awaiting()
-		if err := cm.TryCommit(b); err != nil {
+		if err := cm.TryCommit(b); err != nil && !(hole >= 0 && i > hole) {
 			return "TryCommit: " + err.Error()
 		}
 		for el.Tick(context.Background()) {
 		}
 		if ruler.target != nil {
-			if msg := check(i + 1); msg != "" {
+			// behind a hole nothing can be executed in chain order: the executed commands must still be
+			// explained by the blocks before the hole
+			upTo := i + 1
+			if hole >= 0 && i > hole {
+				// any prefix of the blocks before the hole is fine (a commit that fails at the hole may have
+				// executed none or all of them); take the longest one that explains count and digest
+				upTo = hole
+				for k := hole; k >= 0; k-- {
+					var cs []*clientpb.Command
+					for _, pb := range blocks[:k] {
+						cs = append(cs, pb.Commands().GetCommands()...)
+					}
+					if _, ok := c06Explain(cs, cio.CmdCount(), cio.Hash().Sum(nil)); ok {
+						upTo = k
+						break
+					}
+				}
+			}
+			if msg := check(upTo); msg != "" {
 				return msg
 			}
 		}
